@@ -157,13 +157,23 @@ package dispatcher
 // Genesis (C17): a valid dispatcher genesis initialises without error (A-COLL-OK: a write to the
 // statistics maps does not fail) and without dereferencing a missing identifier.
 // ---------------------------------------------------------------------------------------------
+// The key an exported/initialised totals entry is stored under, and the same for counts.
+//@ macro amtKeyOf(e) = quad4(deref(e.SourceId).ProtocolId, deref(e.SourceId).CounterpartyId, idstr(deref(e.DestinationId).ProtocolId, deref(e.DestinationId).CounterpartyId), e.Denom)
+//@ macro cntKeyOf(e) = quad4(deref(e.SourceId).ProtocolId, deref(e.SourceId).CounterpartyId, deref(e.DestinationId).ProtocolId, deref(e.DestinationId).CounterpartyId)
+//@ macro amtKeysDistinctG(g) = forall i int, j int trigger(g.DispatchedAmounts[i], g.DispatchedAmounts[j]) :: 0 <= i && i < j && j < len(g.DispatchedAmounts) ==> amtKeyOf(g.DispatchedAmounts[i]) != amtKeyOf(g.DispatchedAmounts[j])
+//@ macro cntKeysDistinctG(g) = forall i int, j int trigger(g.DispatchedCounts[i], g.DispatchedCounts[j]) :: 0 <= i && i < j && j < len(g.DispatchedCounts) ==> cntKeyOf(g.DispatchedCounts[i]) != cntKeyOf(g.DispatchedCounts[j])
 //@ func (d *Dispatcher) InitGenesis(ctx, g) (err)
 //@   requires[inv] d != nil
 //@   modifies amt_has, amt_val, cnt_has, cnt_val
 //@   requires[C17] dispGenesisOK(g)
-//@   loop 0 invariant[C17] amtEntriesOK(g) && cntEntriesOK(g)
+//@   loop 0 invariant[C17] amtEntriesOK(g) && cntEntriesOK(g) && cnt_has == old(cnt_has) && cnt_val == old(cnt_val)
+//@   loop 0 invariant[C17] amtKeysDistinctG(g) ==> forall j int trigger(g.DispatchedAmounts[j]) :: 0 <= j && j < idx ==> amt_has[d.dispatchedAmounts][amtKeyOf(g.DispatchedAmounts[j])] && amt_val[d.dispatchedAmounts][amtKeyOf(g.DispatchedAmounts[j])] == g.DispatchedAmounts[j].AmountDispatched
 //@   loop 1 invariant[C17] cntEntriesOK(g)
+//@   loop 1 invariant[C17] cntKeysDistinctG(g) ==> forall j int trigger(g.DispatchedCounts[j]) :: 0 <= j && j < idx ==> cnt_has[d.dispatchedCounts][cntKeyOf(g.DispatchedCounts[j])] && cnt_val[d.dispatchedCounts][cntKeyOf(g.DispatchedCounts[j])] == g.DispatchedCounts[j].Count
 //@   ensures[C17] err == nil
+//   content (for a genesis whose entries have pairwise different keys, as every exported genesis has): every listed entry is stored under its key
+//@   ensures[C17] amtKeysDistinctG(g) ==> forall j int trigger(g.DispatchedAmounts[j]) :: 0 <= j && j < len(g.DispatchedAmounts) ==> amt_has[d.dispatchedAmounts][amtKeyOf(g.DispatchedAmounts[j])] && amt_val[d.dispatchedAmounts][amtKeyOf(g.DispatchedAmounts[j])] == g.DispatchedAmounts[j].AmountDispatched
+//@   ensures[C17] cntKeysDistinctG(g) ==> forall j int trigger(g.DispatchedCounts[j]) :: 0 <= j && j < len(g.DispatchedCounts) ==> cnt_has[d.dispatchedCounts][cntKeyOf(g.DispatchedCounts[j])] && cnt_val[d.dispatchedCounts][cntKeyOf(g.DispatchedCounts[j])] == g.DispatchedCounts[j].Count
 
 // ---------------------------------------------------------------------------------------------
 // Statistics queries (C13) - the part within reach: the secondary index keys are the destination
@@ -276,3 +286,10 @@ package dispatcher
 //@   ensures[C17] forall j int trigger(g.DispatchedAmounts[j]) :: 0 <= j && j < len(g.DispatchedAmounts) ==> entryOfKey(g.DispatchedAmounts[j], d, enumAtQ(amap(d), j))
 //@   ensures[C17] forall j int trigger(g.DispatchedCounts[j]) :: 0 <= j && j < len(g.DispatchedCounts) ==> cntEntryOfKey(g.DispatchedCounts[j], d, enumAtQC(cmap(d), j))
 //@   ensures[C17] amt_has == old(amt_has) && amt_val == old(amt_val) && cnt_has == old(cnt_has) && cnt_val == old(cnt_val)
+
+// An exported entry is stored, when initialised, under exactly the key it was exported from (the textual
+// destination identifier is rebuilt from the parsed pair: idstr(idP(k3), idC(k3)) == k3 by the store
+// invariant), so the exported lists have pairwise different keys and InitGenesis's content clauses apply.
+//@ lemma[C17] exportedAmountKey: forall q T_cosmossdk_io_collections_Quad_int32_string_string_string_ :: amtKeyOK(q) ==> quad4(q.k1, q.k2, idstr(idP(q.k3), idC(q.k3)), q.k4) == q
+//@ lemma[C17] enumRoundTripQ: forall S (Array T_cosmossdk_io_collections_Quad_int32_string_string_string_ Bool), q T_cosmossdk_io_collections_Quad_int32_string_string_string_ :: enumFactsQ(S) ==> (S[q] <==> (exists j int :: 0 <= j && j < enumLenQ(S) && enumAtQ(S, j) == q))
+//@ lemma[C17] enumRoundTripQC: forall S (Array T_cosmossdk_io_collections_Quad_int32_string_int32_string_ Bool), q T_cosmossdk_io_collections_Quad_int32_string_int32_string_ :: enumFactsQC(S) ==> (S[q] <==> (exists j int :: 0 <= j && j < enumLenQC(S) && enumAtQC(S, j) == q))
